@@ -160,6 +160,9 @@ class Checker:
         from skepticoin.blockstore import BlockStore
         world = gen.World(rng)
         world.odd_reward_prob = rng.choice([0.0, 0.3])
+        world.min_ts = rng.choice([0, 0, 2_000_000_000, 4_200_000_000])     # (some histories are stamped ahead of the wall clock)
+        if world.min_ts:
+            self.c["trees_stamped_ahead_of_the_wall_clock"] = self.c.get("trees_stamped_ahead_of_the_wall_clock", 0) + 1
         world.grow(n, rng, tx_prob=0.8, max_txs=rng.choice([1, 2, 4]))
         order = world.chain.order[1:]
         c = self.c
